@@ -161,8 +161,17 @@ func oneCase(s kem.Scheme, k, e int) {
 	}
 
 	// marshal round trip
-	pkU, err1 := s.UnmarshalBinaryPublicKey(pkb)
-	skU, err2 := s.UnmarshalBinaryPrivateKey(skb)
+	// the buffers handed to the decoders are scribbled over afterwards: an
+	// unmarshalled key must not keep a reference to its input
+	pkIn, skIn := lib.Clone(pkb), lib.Clone(skb)
+	pkU, err1 := s.UnmarshalBinaryPublicKey(pkIn)
+	skU, err2 := s.UnmarshalBinaryPrivateKey(skIn)
+	for i := range pkIn {
+		pkIn[i] ^= 0xA5
+	}
+	for i := range skIn {
+		skIn[i] ^= 0xA5
+	}
 	if err1 != nil || err2 != nil {
 		viol(s, "unmarshal-own-key", "seed", seed, "err1", err1, "err2", err2)
 		return
